@@ -31,7 +31,7 @@ func init() {
 			"x handler Content-Type {none, text/plain} x {response body access off, on x limit action {Reject, ProcessPartial} x MIME list {matching, not matching}} x rule {none, phase 3/4 x deny/redirect/drop}, plus DetectionOnly {by directive, by ctl:ruleEngine in phase 1} x {Reject, ProcessPartial} x {no rule, would-be deny}, request body 3 B; " +
 			"the combination 'no Content-Type + non-matching MIME list' is left out as doubly unbuffered) and " +
 			"'req' (every program of <=2 / <=3 operations over {ReadAll, read with 1 B buffer, read with 3 B buffer, Write(3 B), WriteHeader(404), Flush} x 20 bodies " +
-			"x {request body access off, on x {Reject, ProcessPartial} x in-memory limit {default, limit/2 (spills to a temp file)}} x response buffering {off, on} x rule {none, phase 1-4 x deny/redirect/drop}, plus DetectionOnly {by directive, by ctl} x {Reject, ProcessPartial} x in-memory limit x {no rule, would-be deny}). " +
+			"x request Content-Type {application/octet-stream (no body processor), urlencoded (a processor reads the buffered body first)} x {request body access off, on x {Reject, ProcessPartial} x in-memory limit {default, limit/2 (spills to a temp file)}} x response buffering {off, on} x rule {none, phase 1-4 x deny/redirect/drop}, plus DetectionOnly {by directive, by ctl} x {Reject, ProcessPartial} x in-memory limit x {no rule, would-be deny}). " +
 			"distinct_nontrivial = distinct scenarios in which the middleware interrupted or the handler produced output / read the body",
 		Assumptions: []string{
 			"no sockets: the client side is what the ResponseWriter received; the strict writer follows net/http server.go (go1.25) header-snapshot, 1xx, body-not-allowed, Content-Length and Flush rules; Content-Type sniffing, Date, chunking, trailers, HEAD, Hijack and HTTP/2 push are not modelled",
@@ -427,7 +427,10 @@ func bodies() []Body {
 	var out []Body
 	for _, k := range []string{"known", "unknown", "unknown1", "lenger"} {
 		for _, n := range []int{0, reqLimit - 1, reqLimit, reqLimit + 1, 2 * reqLimit} {
-			out = append(out, Body{n, k})
+			out = append(out, Body{Size: n, Kind: k})
+			if k == "known" || k == "unknown" {
+				out = append(out, Body{Size: n, Kind: k, Form: true})
+			}
 		}
 	}
 	return out
@@ -497,7 +500,7 @@ func run(c *runner.Ctx) {
 	idx := 0
 	// sub-space 'resp'
 	rconfs := respConfs()
-	smallBody := Body{3, "known"}
+	smallBody := Body{Size: 3, Kind: "known"}
 	programs(respOps, respMax, func(p []string) {
 		idx++
 		if !c.Mine(idx) || c.Expired() {
